@@ -240,6 +240,10 @@ type Case struct {
 	ErrW   string `json:"errword,omitempty"`
 	ErrFmt string `json:"errfmt,omitempty"`
 	ErrOp  int    `json:"errop,omitempty"`
+	// listing cases: what the vendor disassembly listing says about these bytes
+	Want     string `json:"want,omitempty"`
+	WantSize int    `json:"wantsize,omitempty"`
+	Source   string `json:"source,omitempty"`
 
 	Obs *Obs   `json:"obs,omitempty"`
 	Coq string `json:"coq"`
